@@ -6,6 +6,7 @@ import (
 	"fmt"
 	"go/ast"
 	"go/types"
+	"strings"
 
 	"golang.org/x/tools/go/packages"
 )
@@ -168,6 +169,60 @@ bzip2, xz and zstd files were not recognised at all.`,
 					s.Pass(nil, key, fd.Pos(), "does not open the file itself (delegates to a sibling)")
 				}
 			})
+		},
+	})
+}
+
+func init() {
+	register(&Rule{
+		ID: "ED", Props: []string{"C17", "C05", "C03"}, Min: 1,
+		Doc: `"any read error other than a clean end of file is fatal" — before the stream is declared finished: in pkg/obiformats, in a function literal that ends an iterator (a call of Done() on an
+IBioSequence) and tests an error against io.EOF in a branch ending the program, that branch stands before the call of Done(): once Done() is called the downstream pipeline may complete and
+the process exit with status 0 while the reader is still on its way to report the error. The ecoPCR reader called Done() and then log.Panicf: a file with a malformed record in the middle gave,
+with --batch-size 1 or 7, status 0 and the 30 records read so far in one run out of twenty, status 2 in the others.`,
+		Run: func(c *Ctx, s *Sink) {
+			n := 0
+			c.EachFunc([]string{"pkg/obiformats"}, func(p *packages.Package, fd *ast.FuncDecl) {
+				info := p.TypesInfo
+				ast.Inspect(fd.Body, func(nd ast.Node) bool {
+					lit, ok := nd.(*ast.FuncLit)
+					if !ok {
+						return true
+					}
+					var done, report ast.Node
+					for _, st := range lit.Body.List {
+						ast.Inspect(st, func(m ast.Node) bool {
+							switch x := m.(type) {
+							case *ast.FuncLit:
+								return false
+							case *ast.CallExpr:
+								if f := callee(info, x); f != nil && f.Name() == "Done" && strings.HasSuffix(fullName(f), "IBioSequence).Done") && done == nil {
+									done = st
+								}
+							case *ast.IfStmt:
+								if strings.Contains(types.ExprString(x.Cond), "io.EOF") && leavesWithError(info, x.Body) && report == nil {
+									report = st
+								}
+							}
+							return true
+						})
+					}
+					if done == nil || report == nil {
+						return true
+					}
+					n++
+					key := fmt.Sprintf("%s:reader#%d:error-before-Done", funcName(p, fd), n)
+					if report.Pos() > done.Pos() {
+						s.Fail(nil, key, report.Pos(), "the read error is reported after Done(): the stream is declared finished first, the pipeline may complete and the process exit with status 0 and the records read so far — a malformed record in the middle of an ecoPCR file: status 0 and 30 of 34 records in 7 runs of 150 with --batch-size 1, status 2 in the others")
+					} else {
+						s.Pass(nil, key, report.Pos(), "a read error ends the program before the stream is ended")
+					}
+					return true
+				})
+			})
+			if n == 0 {
+				s.Undecided(nil, "pkg/obiformats:error-before-Done", 0, "no reader literal with both an io.EOF test and a Done()")
+			}
 		},
 	})
 }
